@@ -27,7 +27,7 @@
    needed; AltDel_strict shows that on strict profiles the specification is C03's SP of the remaining rankings. *)
 From Coq Require Import List Arith NArith ZArith Bool Permutation.
 From PrefVerif Require Import Lib.Val Lib.Contig Lib.Subsets Model.SP Model.Deletion Model.ILPEnc Model.ELPDP Model.MaxAxis
-                              Model.Partition Proofs.SP Proofs.Deletion Proofs.ILPEnc Proofs.ELPDP Proofs.MaxAxis.
+                              Model.Partition Proofs.SP Proofs.Deletion Proofs.ILPEnc Proofs.ELPDP Proofs.MaxAxis Proofs.ELPComplete Proofs.ELPOptimal.
 Import ListNotations.
 
 (* ---- the reference optimisers return the minimum ---------------------------------------------- *)
@@ -286,8 +286,8 @@ Print Assumptions ilp_altdel_optimum.
    for every choice (ext_order only has to return members of its argument; for termination of the partition loop,
    all of them).  The mirror is total: every Python loop is a `for` over a finite range except the `while` of
    k_alt_partition_approx, whose termination is part of approx_valid.
-   NOT proved: optimality (|removed| = min_alt_del, the theorem of Erdelyi, Lackner and Pfandler): it stays compared
-   with the verified reference up to 6 alternatives, and implementation = mirror in size at every size. *)
+   Optimality (|removed| = min_alt_del, the theorem of Erdelyi, Lackner and Pfandler) is proved further below
+   (elp_optimal). *)
 
 (* the returned (axis, removed) is accepted by the verified certificate checker: "the deletion set has the reported
    size and the remaining profile restricted to the remaining alternatives is single-peaked on the returned axis" *)
@@ -335,7 +335,7 @@ Proof. exact Proofs.ELPDP.approx_valid. Qed.
 Print Assumptions approx_valid.
 
 (* ---- a fast verified reference for strict profiles (Model/MaxAxis.v) --------------------------- *)
-(* Optimality of the dynamic programme (|removed| = min_alt_del) is NOT proved.  To compare it exactly at 7-12
+(* To compare the implementation with the exact optimum at 7-15
    alternatives, where min_alt_del (all deletion sets x all axes) is too slow, the longest single-peaked axis over any
    subset of the alternatives is computed by a depth-first search over the lists on which every vote is single-peaked
    (hereditary, so the search is exhaustive), and proved equal to the reference: *)
@@ -343,6 +343,42 @@ Theorem fast_min_alt_correct : forall alts votes, NoDup alts -> (forall v, In v 
   fast_min_alt alts votes = min_alt_del alts (map strictify votes).
 Proof. exact Proofs.MaxAxis.fast_min_alt_correct. Qed.
 Print Assumptions fast_min_alt_correct.
+
+(* ---- optimality of the dynamic programme (Erdelyi-Lackner-Pfandler) ---------------------------- *)
+(* Proofs/ELPComplete.v, ELPLevels.v, ELPOptimal.v.  For EVERY choice of the two order parameters (ext_order has to
+   return exactly the members of its argument):
+     place_complete       `place` accepts the set of bottoms of the unplaced rest of any completable incomplete axis
+                          and the result is completable again (completeness of case_2 / case_3; reused by C18)
+     longest_axis_longest the axis returned is at least as long as every list of alternatives on which all votes are
+                          single-peaked: table domination (place only looks at the boundary), the pruning test and the
+                          locked axis are harmless, and every single-peaked target is built level by level
+     elp_optimal          hence k_alternative_deletion removes exactly min_alt_del alternatives. *)
+Theorem place_complete : forall votes, votes <> [] -> forall (pair_first : N -> N -> bool) A U,
+  U <> [] -> NoDup (pa_elems A ++ U) -> (forall v, In v votes -> NoDup v /\ incl (pa_elems A ++ U) v) ->
+  completable votes A U ->
+  exists x1 x2, isbottom votes U x1 /\ isbottom votes U x2 /\ (forall y, isbottom votes U y -> y = x1 \/ y = x2) /\
+  exists A' ok, place pair_first A (mkset x1 x2) votes = (A', ok) /\
+    pa_len A' = (pa_len A + length (mkset x1 x2))%nat /\
+    Permutation (pa_elems A' ++ rest (mkset x1 x2) U) (pa_elems A ++ U) /\
+    completable votes A' (rest (mkset x1 x2) U) /\
+    (rest (mkset x1 x2) U <> [] -> ok = true) /\ pa_eqb A' A = false.
+Proof. exact Proofs.ELPComplete.place_complete. Qed.
+Print Assumptions place_complete.
+
+Theorem longest_axis_longest : forall (pair_first : N -> N -> bool) (ext_order : list (list N) -> list (list N)),
+  (forall l X, In X (ext_order l) <-> In X l) ->
+  forall alts votes O, NoDup alts -> votes <> [] -> (forall v, In v votes -> NoDup v /\ incl alts v) ->
+  (NoDup O /\ incl O alts /\ forall v, In v votes -> spv v O) ->
+  (length O <= length (fst (longest_axis pair_first ext_order alts votes)))%nat.
+Proof. exact Proofs.ELPOptimal.longest_axis_longest. Qed.
+Print Assumptions longest_axis_longest.
+
+Theorem elp_optimal : forall (pair_first : N -> N -> bool) (ext_order : list (list N) -> list (list N)),
+  (forall l X, In X (ext_order l) <-> In X l) ->
+  forall alts votes, NoDup alts -> votes <> [] -> (forall v, In v votes -> Permutation alts v) ->
+  length (snd (k_alternative_deletion pair_first ext_order alts votes)) = min_alt_del alts (map strictify votes).
+Proof. exact Proofs.ELPOptimal.elp_optimal. Qed.
+Print Assumptions elp_optimal.
 
 (* ---- non-vacuity ------------------------------------------------------------------------------ *)
 Open Scope N_scope.
